@@ -362,6 +362,10 @@ func (e *SpecEnv) modItem(m string) modItem {
 		sfail("modifies %q: %v", m, err)
 	}
 	switch n.Kind {
+	case "ident":
+		if a, ok := e.addrs[n.Name]; ok {
+			return modItem{kind: "under", addr: a.V.(*Term)}
+		}
 	case "unary":
 		p := e.eval(n.Args[0])
 		if iv, isI := p.V.(*IfaceV); isI {
